@@ -475,7 +475,7 @@ def drv_result(ctx, D, ps, rng, scale):
     # loops until enough unique rows are collected)
     dup_sets = [[[1, "x"], [1, "x"], [2, "y"], [2, "y"], [1, "z"], [3, "x"]],
                 [[1, "x"], [2, "y"], [1, "x"], [2, "y"], [3, "z"], [3, "z"], [4, "w"]],
-                [[0, 0]] * 5 + [[1, 1]], []]
+                [[0, 0]] * 5 + [[1, 1]], [[1, "x"], [1, "x"], [2, "y"], [3, "z"], [4, "w"]], []]
     scripts = [
         [("r", ["unique", None]), ("r", ["fetchmany", 2]), ("r", ["fetchmany", 2]), ("r", ["all"])],
         [("r", ["unique", None]), ("r", ["partitions", 2, 9])],
@@ -611,6 +611,8 @@ def asan_job(ctx):
                   if "ERROR: AddressSanitizer" in ln or "runtime error:" in ln or "ERROR: UndefinedBehaviorSanitizer" in ln]
         ctx.count("asan_log_scanned")
         ctx.extra["sanitizer_report_blocks"] = len(blocks)
+        ctx.seen("sanitizer_report_blocks", len(blocks))
+        ctx.seen("sanitizer_log_bytes", len(text))
         for ln in blocks[:5]:
             kind = "asan" if "AddressSanitizer" in ln else "ubsan"
             where = ""
